@@ -16,6 +16,7 @@ import (
 	"bufio"
 	"bytes"
 	"context"
+	"encoding/base64"
 	"fmt"
 	"io"
 	"math/rand"
@@ -30,6 +31,7 @@ import (
 
 	mail "github.com/wneessen/go-mail"
 	"verif/harness/hx"
+	"verif/harness/saslx"
 )
 
 func init() { hx.Register("C13", Run) }
@@ -48,13 +50,31 @@ type commit struct {
 	rcptIDs  []int
 	bodyIDs  []int // ids of all MARK-<id>- lines in the data block
 	complete bool  // the data block ends with the END-<id> line of its first marker
+	authed   bool  // a successful AUTH exchange preceded it on the connection
 }
+
+// authRec is one AUTH exchange as the server saw it.
+type authRec struct {
+	conn   int
+	mech   string
+	ok     bool
+	detail string // why it was rejected / what was malformed
+}
+
+const (
+	authUser = "toni@c13.test"
+	authPass = "V3ryS3cr3t+"
+)
 
 type server struct {
 	ln      net.Listener
 	mu      sync.Mutex
 	streams [][]item
 	commits []commit
+	auths   []authRec
+	authOn  bool // advertise and require AUTH
+	scram1  saslx.Stored
+	scram2  saslx.Stored
 	seed    int64
 	jitter  int // max reply delay in microseconds
 	wg      sync.WaitGroup
@@ -66,12 +86,16 @@ var (
 	reMark = regexp.MustCompile(`MARK-(\d+)-`)
 )
 
-func newServer(seed int64, jitter int) (*server, error) {
+func newServer(seed int64, jitter int, authOn bool) (*server, error) {
 	ln, err := net.Listen("tcp", "127.0.0.1:0")
 	if err != nil {
 		return nil, err
 	}
-	s := &server{ln: ln, seed: seed, jitter: jitter}
+	s := &server{ln: ln, seed: seed, jitter: jitter, authOn: authOn}
+	if authOn {
+		s.scram1 = saslx.Store(saslx.SHA1, authPass, []byte("c13-salt-sha1"), 256)
+		s.scram2 = saslx.Store(saslx.SHA256, authPass, []byte("c13-salt-sha256"), 256)
+	}
 	go s.accept()
 	return s, nil
 }
@@ -128,7 +152,15 @@ func (s *server) serve(c net.Conn, idx int) {
 		switch {
 		case strings.HasPrefix(up, "EHLO"), strings.HasPrefix(up, "HELO"):
 			s.record(idx, item{'H', 0})
-			if !reply("250-c13.test\r\n250-8BITMIME\r\n250 ENHANCEDSTATUSCODES") {
+			caps := "250-c13.test\r\n250-8BITMIME\r\n"
+			if s.authOn {
+				caps += "250-AUTH PLAIN LOGIN CRAM-MD5 SCRAM-SHA-1 SCRAM-SHA-256\r\n"
+			}
+			if !reply(caps + "250 ENHANCEDSTATUSCODES") {
+				return
+			}
+		case strings.HasPrefix(up, "AUTH "):
+			if !s.authExchange(idx, line, rd, rng, reply, c) {
 				return
 			}
 		case strings.HasPrefix(up, "NOOP"):
@@ -179,7 +211,7 @@ func (s *server) serve(c net.Conn, idx int) {
 				}
 				data.WriteString(l)
 			}
-			cm := commit{conn: idx, mailID: mailID, rcptIDs: rcpts}
+			cm := commit{conn: idx, mailID: mailID, rcptIDs: rcpts, authed: s.authedConn(idx)}
 			for _, m := range reMark.FindAllStringSubmatch(data.String(), -1) {
 				id, _ := strconv.Atoi(m[1])
 				cm.bodyIDs = append(cm.bodyIDs, id)
@@ -210,6 +242,152 @@ func (s *server) serve(c net.Conn, idx int) {
 	}
 }
 
+func (s *server) authedConn(idx int) bool {
+	s.mu.Lock()
+	defer s.mu.Unlock()
+	for _, a := range s.auths {
+		if a.conn == idx && a.ok {
+			return true
+		}
+	}
+	return false
+}
+
+// authExchange runs one SASL exchange (reference verifiers of harness/saslx) and records it.
+// It returns false when the connection is gone.
+func (s *server) authExchange(idx int, line string, rd *bufio.Reader, rng *rand.Rand, reply func(string) bool, c net.Conn) bool {
+	f := strings.Fields(line)
+	mech := strings.ToUpper(f[1])
+	rec := authRec{conn: idx, mech: mech}
+	alive := true
+	finish := func(ok bool, detail string) bool {
+		rec.ok, rec.detail = ok, detail
+		s.mu.Lock()
+		s.auths = append(s.auths, rec)
+		s.mu.Unlock()
+		if !alive {
+			return false
+		}
+		if ok {
+			return reply("235 2.7.0 Authentication successful")
+		}
+		return reply("535 5.7.8 Authentication credentials invalid")
+	}
+	// challenge sends a 334 and reads the client's answer; aborted = the client sent "*"
+	challenge := func(ch []byte) (resp []byte, aborted bool, good bool) {
+		if !reply("334 " + base64.StdEncoding.EncodeToString(ch)) {
+			alive = false
+			return nil, false, false
+		}
+		_ = c.SetReadDeadline(time.Now().Add(8 * time.Second))
+		l, err := rd.ReadString('\n')
+		if err != nil {
+			alive = false
+			return nil, false, false
+		}
+		l = strings.TrimRight(l, "\r\n")
+		if l == "*" {
+			return nil, true, true
+		}
+		b, ok := saslx.UnB64(l)
+		return b, false, ok
+	}
+	var ir []byte
+	hasIR := len(f) >= 3
+	if hasIR {
+		b, ok := saslx.UnB64(f[2])
+		if !ok {
+			return finish(false, "initial response is not base64: "+f[2])
+		}
+		ir = b
+	}
+	if len(f) > 3 {
+		return finish(false, "malformed AUTH line: "+line)
+	}
+	if s.seenAuthOK(idx) {
+		return finish(false, "second AUTH on an authenticated connection")
+	}
+	switch mech {
+	case "PLAIN":
+		if !hasIR {
+			b, ab, ok := challenge(nil)
+			if !alive || ab || !ok {
+				return finish(false, "PLAIN: aborted or malformed response")
+			}
+			ir = b
+		}
+		_, user, pass, err := saslx.ParsePlain(ir)
+		if err != nil || user != authUser || pass != authPass {
+			return finish(false, fmt.Sprintf("PLAIN: user %q pass %q err %v", user, pass, err))
+		}
+		return finish(true, "")
+	case "LOGIN":
+		if hasIR {
+			return finish(false, "LOGIN with initial response")
+		}
+		u, ab, ok := challenge([]byte("Username:"))
+		if !alive || ab || !ok {
+			return finish(false, "LOGIN: aborted or malformed user name step")
+		}
+		p, ab, ok := challenge([]byte("Password:"))
+		if !alive || ab || !ok {
+			return finish(false, fmt.Sprintf("LOGIN: aborted or malformed password step (user %q)", u))
+		}
+		if string(u) != authUser || string(p) != authPass {
+			return finish(false, fmt.Sprintf("LOGIN: got user name %q, password %q", u, p))
+		}
+		return finish(true, "")
+	case "CRAM-MD5":
+		if hasIR {
+			return finish(false, "CRAM-MD5 with initial response")
+		}
+		ch := saslx.CramChallenge(fmt.Sprintf("%d.%d", idx, rng.Int63()))
+		resp, ab, ok := challenge([]byte(ch))
+		if !alive || ab || !ok {
+			return finish(false, "CRAM-MD5: aborted or malformed response")
+		}
+		user, good := saslx.VerifyCram(ch, resp, func(u string) (string, bool) { return authPass, u == authUser })
+		if !good {
+			return finish(false, fmt.Sprintf("CRAM-MD5: wrong digest for this challenge (user %q)", user))
+		}
+		return finish(true, "")
+	case "SCRAM-SHA-1", "SCRAM-SHA-256":
+		h, st := saslx.SHA1, s.scram1
+		if mech == "SCRAM-SHA-256" {
+			h, st = saslx.SHA256, s.scram2
+		}
+		if !hasIR {
+			b, ab, ok := challenge(nil)
+			if !alive || ab || !ok {
+				return finish(false, mech+": aborted or malformed client-first")
+			}
+			ir = b
+		}
+		ss := &saslx.ScramServer{Hash: h, NonceSuffix: fmt.Sprintf("srv%d", rng.Int63()),
+			Lookup: func(u string) (saslx.Stored, bool) { return st, u == authUser }}
+		sf, err := ss.First(ir)
+		if err != nil {
+			return finish(false, mech+": "+err.Error())
+		}
+		cf, ab, ok := challenge(sf)
+		if !alive || ab || !ok {
+			return finish(false, mech+": aborted or malformed client-final")
+		}
+		fin, err := ss.Final(cf)
+		if err != nil {
+			return finish(false, mech+": "+err.Error())
+		}
+		last, ab, ok := challenge(fin)
+		if !alive || ab || !ok || len(last) != 0 {
+			return finish(false, mech+": client did not acknowledge the server signature")
+		}
+		return finish(true, "")
+	}
+	return finish(false, "unsupported mechanism "+mech)
+}
+
+func (s *server) seenAuthOK(idx int) bool { return s.authedConn(idx) }
+
 func (s *server) stop() {
 	_ = s.ln.Close()
 	done := make(chan struct{})
@@ -227,12 +405,25 @@ type spec struct {
 	ns, nd int
 	rcpts  []int
 	jseed  int64
+	mech   string // "" = no SMTP auth; plain login cram scram1 scram256 auto
+	warm   bool   // DialAndSend-only rounds: one sequential DialWithContext+Close before the concurrent calls
 }
+
+var authTypes = map[string]mail.SMTPAuthType{"plain": mail.SMTPAuthPlain, "login": mail.SMTPAuthLogin,
+	"cram": mail.SMTPAuthCramMD5, "scram1": mail.SMTPAuthSCRAMSHA1, "scram256": mail.SMTPAuthSCRAMSHA256,
+	"auto": mail.SMTPAuthAutoDiscover}
 
 func parseSpec(c hx.Case) (spec, error) {
 	var sp spec
-	if c.Kind != "mixed" || len(c.Args) < 4 {
+	kp := strings.Split(c.Kind, ":")
+	if kp[0] != "mixed" || len(c.Args) < 4 || (len(kp) != 1 && len(kp) != 3) {
 		return sp, fmt.Errorf("bad case %q", c.Line())
+	}
+	if len(kp) == 3 {
+		if _, ok := authTypes[kp[1]]; !ok {
+			return sp, fmt.Errorf("unknown auth mechanism %q", kp[1])
+		}
+		sp.mech, sp.warm = kp[1], kp[2] == "1"
 	}
 	var err error
 	if sp.ns, err = strconv.Atoi(c.Args[0]); err != nil {
@@ -321,15 +512,19 @@ func runRound(sp spec) (res result) {
 	}
 	n := sp.ns + sp.nd
 	rng := rand.New(rand.NewSource(sp.jseed))
-	srv, err := newServer(sp.jseed, 150+rng.Intn(400))
+	srv, err := newServer(sp.jseed, 150+rng.Intn(400), sp.mech != "")
 	if err != nil {
 		fail("harness-listen", "%v", err)
 		res.observable = "HARNESS-ERROR"
 		return
 	}
 	defer srv.stop()
-	client, err := mail.NewClient("127.0.0.1", mail.WithPort(srv.port()), mail.WithTLSPolicy(mail.NoTLS),
-		mail.WithHELO("c13.test"), mail.WithTimeout(5*time.Second))
+	opts := []mail.Option{mail.WithPort(srv.port()), mail.WithTLSPolicy(mail.NoTLS),
+		mail.WithHELO("c13.test"), mail.WithTimeout(5 * time.Second)}
+	if sp.mech != "" {
+		opts = append(opts, mail.WithSMTPAuth(authTypes[sp.mech]), mail.WithUsername(authUser), mail.WithPassword(authPass))
+	}
+	client, err := mail.NewClient("127.0.0.1", opts...)
 	if err != nil {
 		fail("harness-client", "%v", err)
 		res.observable = "HARNESS-ERROR"
@@ -349,6 +544,17 @@ func runRound(sp spec) (res result) {
 		cancel()
 		if err != nil {
 			fail("dial-error", "DialWithContext: %v", err)
+		}
+	}
+	warmConn := sp.ns == 0 && sp.warm
+	if warmConn { // sequential warm-up dial: the concurrent dials that follow are not the Client's first
+		ctx, cancel := context.WithTimeout(context.Background(), 8*time.Second)
+		err = client.DialWithContext(ctx)
+		cancel()
+		if err != nil {
+			fail("dial-error", "warm-up DialWithContext: %v", err)
+		} else if err = client.Close(); err != nil {
+			fail("close-error", "warm-up Close: %v", err)
 		}
 	}
 	delays := make([]time.Duration, n)
@@ -390,7 +596,26 @@ func runRound(sp spec) (res result) {
 	srv.mu.Lock()
 	streams := srv.streams
 	commits := srv.commits
+	auths := srv.auths
 	srv.mu.Unlock()
+
+	// ---- every AUTH exchange the server saw is well-formed and accepted; every connection authenticates once
+	authCount := map[int]int{}
+	for _, a := range auths {
+		authCount[a.conn]++
+		if !a.ok {
+			fail("auth-exchange-rejected", "conn %d %s (configured %s, warm-up %v): %s", a.conn, a.mech, sp.mech, sp.warm, a.detail)
+		}
+	}
+	for ci := range streams {
+		want := 0
+		if sp.mech != "" {
+			want = 1
+		}
+		if authCount[ci] != want {
+			fail("auth-exchange-count", "conn %d saw %d AUTH exchanges, expected %d (configured %q)", ci, authCount[ci], want, sp.mech)
+		}
+	}
 
 	// ---- results of the calls
 	allOK := true
@@ -455,6 +680,9 @@ func runRound(sp spec) (res result) {
 			continue
 		}
 		count[body]++
+		if sp.mech != "" && !cm.authed {
+			fail("unauthenticated-mail", "conn %d: message %d committed without a successful AUTH", cm.conn, body)
+		}
 		if !cm.complete {
 			fail("content-incomplete", "conn %d: message %d committed without its last line", cm.conn, body)
 		}
@@ -484,6 +712,12 @@ func runRound(sp spec) (res result) {
 	for ci, st := range streams {
 		if sp.ns > 0 && ci == 0 {
 			shared = st
+			continue
+		}
+		if warmConn && ci == 0 {
+			if streamText(st) != "H,Q" {
+				fail("warmup-conn", "the warm-up connection carries %s, expected H,Q", streamText(st))
+			}
 			continue
 		}
 		owner := 0
@@ -578,17 +812,24 @@ func serialCheck(st []item, sp spec) bool {
 // generation, worker protocol
 
 func genCases(r *hx.Run) []hx.Case {
-	rounds := 60
+	rounds := 72
 	if r.Tier == "thorough" {
 		rounds = 2000
 	}
 	sizes := []int{2, 2, 3, 4, 5, 8, 8, 12, 16, 24, 32, 48, 64}
+	mechs := []string{"login", "plain", "cram", "scram256", "auto", "scram1"}
+	// fixed opening rounds: both ends of the goroutine range without auth, then the concurrent-dial shapes
+	// with SMTP auth: first dials overlapping (cold) and after a sequential warm-up dial, stateless and
+	// stateful mechanisms
+	fixed := []struct {
+		n, ns int
+		kind  string
+	}{{2, 2, "mixed"}, {64, 0, "mixed"}, {16, 7, "mixed"},
+		{12, 0, "mixed:login:0"}, {12, 0, "mixed:login:1"}, {12, 0, "mixed:scram256:1"}, {16, 0, "mixed:auto:0"},
+		{8, 0, "mixed:plain:0"}, {8, 0, "mixed:cram:1"}, {8, 3, "mixed:login:0"}, {32, 0, "mixed:scram1:0"}, {8, 8, "mixed:scram256:0"}}
 	var out []hx.Case
 	for k := 0; k < rounds; k++ {
 		n := sizes[r.Rng.Intn(len(sizes))]
-		if k < 3 {
-			n = []int{2, 64, 16}[k] // both ends of the quantifier's range in every run
-		}
 		var ns int
 		switch k % 3 {
 		case 0:
@@ -598,11 +839,18 @@ func genCases(r *hx.Run) []hx.Case {
 		default:
 			ns = 1 + r.Rng.Intn(n-1)
 		}
+		kind := "mixed"
+		if r.Rng.Intn(5) < 3 { // 60 % of the generated rounds run with SMTP auth configured
+			kind = fmt.Sprintf("mixed:%s:%d", mechs[r.Rng.Intn(len(mechs))], r.Rng.Intn(2))
+		}
+		if k < len(fixed) {
+			n, ns, kind = fixed[k].n, fixed[k].ns, fixed[k].kind
+		}
 		rc := make([]int, n)
 		for i := range rc {
 			rc[i] = 1 + r.Rng.Intn(3)
 		}
-		out = append(out, hx.Case{ID: r.NewID(), Kind: "mixed",
+		out = append(out, hx.Case{ID: r.NewID(), Kind: kind,
 			Args: []string{strconv.Itoa(ns), strconv.Itoa(n - ns), csv(rc), strconv.FormatInt(r.Rng.Int63n(1<<40), 10)}})
 	}
 	return out
@@ -730,6 +978,14 @@ func Run(r *hx.Run, replay []hx.Case) {
 				sp, _ := parseSpec(c)
 				r.Add(c, t[3], sp.ns+sp.nd >= 2)
 				r.Dist[fmt.Sprintf("goroutines<=%d", bucket(sp.ns+sp.nd))]++
+				if sp.mech != "" {
+					r.Dist["auth:"+sp.mech]++
+					if sp.ns == 0 {
+						r.Dist[map[bool]string{true: "dial-shape:after-warm-up", false: "dial-shape:first-dials-overlap"}[sp.warm]]++
+					}
+				} else {
+					r.Dist["auth:none"]++
+				}
 				switch {
 				case sp.nd == 0:
 					r.Dist["mode:shared-connection"]++
